@@ -61,7 +61,8 @@ def knownEntry (op : Nat) (b : Bytes) (ops : List Nat) (allBase : List Tok) : Bo
   | some k => (ops.zip allBase).any (fun (o, t) => entryKey o t.bytes == some k)
 
 /-- a single deviating response is acceptable when it is the failure code, a correct prefix followed
-    by disconnection, or still-correct (possibly incomplete, never altered) listing data -/
+    by disconnection, or still-correct (possibly incomplete, never altered) listing data. A directory
+    size has no "incomplete but correct" form: a smaller total reported as success is wrong data. -/
 def allowedDeviation (op : Nat) (base got : Tok) (ops : List Nat) (allBase : List Tok) : Bool :=
   match got with
   | .timeout _ => false
@@ -69,8 +70,7 @@ def allowedDeviation (op : Nat) (base got : Tok) (ops : List Nat) (allBase : Lis
   | .resp b =>
     failureResp op == some b ||
     (op == Gen.proto_CmdReadDir && subListing b base.bytes) ||
-    knownEntry op b ops allBase ||
-    (op == Gen.proto_CmdGetDirSize && b.length == 8 && fromBE b ≤ fromBE base.bytes && fromBE base.bytes < 2 ^ 63)
+    knownEntry op b ops allBase
 
 inductive Verdict where
   | ok
